@@ -1925,6 +1925,10 @@ class Store:
                     'the topology: %s', str(source), str(mismatch_schema))
 
             for port, subschema in schema.items():
+                if port == '_output':
+                    # flag read by schema_topology only, not a port
+                    continue
+
                 path = topology.get(port, (port,))
 
                 if port == '*':
